@@ -466,6 +466,9 @@ def check(prop: str, tier: str, seed: int) -> int:
     # witnesses of defects found earlier are always replayed
     scen += witnesses(prop)
     execute_and_judge(run, scen, own)
+    if prop in ("C05", "C09"):
+        from . import checks_api
+        checks_api.extend(run, prop, tier, rnd)
     return run.finish()
 
 
